@@ -71,16 +71,42 @@ inductive TS where
   | wRet (r : WRes)                      -- about to return `r`
 deriving DecidableEq, Repr
 
-/-- effect of one statement on (x, broadcast state, handles obtained so far) -/
-def execOp (a : Nat × Bcast × List Nat) : Op → Nat × Bcast × List Nat
-  | .get => (a.1, a.2.1.getWaitCh.1, a.2.2 ++ [a.2.1.getWaitCh.2])
-  | .bcast => (a.1, a.2.1.broadcast, a.2.2)
-  | .set v => (v, a.2.1, a.2.2)
+/-- effect of a whole body, executed atomically under the mutex, on `x` and the broadcast state,
+and the handles it obtained (in program order) -/
+def exec : Prog → Nat → Bcast → Nat × Bcast × List Nat
+  | [], x, bc => (x, bc, [])
+  | .get :: r, x, bc =>
+    let o := exec r x bc.getWaitCh.1
+    (o.1, o.2.1, bc.getWaitCh.2 :: o.2.2)
+  | .bcast :: r, x, bc => exec r x bc.broadcast
+  | .set v :: r, _, bc => exec r v bc
 
-/-- effect of a whole body, executed atomically under the mutex -/
-def exec (p : Prog) (x : Nat) (bc : Bcast) : Nat × Bcast × List Nat := p.foldl execOp (x, bc, [])
+/-- the body calls `broadcast()` -/
+def Prog.hasBcast : Prog → Bool
+  | [] => false
+  | .bcast :: _ => true
+  | _ :: r => Prog.hasBcast r
 
-def Prog.hasBcast (p : Prog) : Bool := p.contains .bcast
+/-- does a `broadcast()` follow the `k`-th `getWaitCh()` of the body? -/
+def laterBcast : Prog → Nat → Bool
+  | [], _ => false
+  | .get :: r, 0 => Prog.hasBcast r
+  | .get :: r, k+1 => laterBcast r k
+  | .bcast :: r, k => laterBcast r k
+  | .set _ :: r, k => laterBcast r k
+
+def numGets : Prog → Nat
+  | [] => 0
+  | .get :: r => numGets r + 1
+  | _ :: r => numGets r
+
+/-- the value `x` has after the body, if the body assigns it -/
+def lastSet : Prog → Option Nat
+  | [] => none
+  | .set v :: r => match lastSet r with
+    | some w => some w
+    | none => some v
+  | _ :: r => lastSet r
 
 structure St where
   x : Nat := 0
